@@ -154,9 +154,25 @@ def shrink_candidates(inp):
 MANIFEST = {
     "level_claimed": {
         "category": "proof",
-        "text": "TODO",
+        "text": ("Coq theorems over a model of the sudo permission set, the six handlers it gates, authz MsgExec dispatch (any nesting, "
+                 "any grants) and baseapp's all-or-nothing tx execution, for EVERY state, message tree and history: only the root in "
+                 "force edits the sudoers (C16_root_only_edits, C16_sudoers_change_only_by_root); a gated operation succeeds iff its "
+                 "sender is root or a listed contract and the payload is valid, and under MsgExec iff additionally the authz condition "
+                 "holds for the INNER signer (C16_gated_iff_permitted, C16_gated_in_exec_iff, C16_every_executed_leaf_authorised); a "
+                 "rejected tx changes nothing, including what its earlier messages wrote (C16_rejected_changes_nothing, "
+                 "C16_failing_message_rolls_back_tx); former roots / removed contracts are rejected from the next message and over any "
+                 "history that does not let them back in (C16_former_root_unpermitted, C16_removed_contract_unpermitted, "
+                 "C16_unpermitted_rejected, C16_stale_permission_over_histories). The model is tied to /repo on every run twice: the list "
+                 "of gate call sites / gated Msg handlers / gate-function normal forms is re-extracted (Gen/C16Facts.v) and "
+                 "C16_current_gates_match_model re-checked, and the model is run against real DeliverTx traces with store digests; the "
+                 "proved-sound checker Pb (C16_checker_sound, and C16_model_satisfies_property for the model) is evaluated on those traces."),
         "design_ref": "DESIGN.md §5 C16",
     },
-    "level_note": "TODO",
+    "level_note": ("Assumes: correctly signed txs with fee 0 (ante signature/sequence/fee logic out of scope); authz grants fixed during a "
+                   "history (GenericAuthorization, no expiry); payload validity of gated messages is a generator label checked by the "
+                   "correspondence; contents of the oracle/inflation/metadata values are abstracted to 'written or not' (digests). "
+                   "Trusted: Coq kernel + vm_compute; go/ast extractor harness/gen/c16 (name-based package-local call graph, no type "
+                   "information); the driver's sha256 digests over raw KV iteration and address->id canonicalisation. A write placed before "
+                   "the permission check is caught by the generated-facts obligation only (it is invisible through DeliverTx)."),
     "technique": "Coq proof (induction over message trees and histories) + generated gate-site facts + differential correspondence on DeliverTx traces",
 }
